@@ -3286,9 +3286,12 @@ RESUME_VALIDATE_CERTS:
         NOTE:  This case should only ever get hit if VALIDATE_KEY_MATERIAL
         has been disabled in matrixssllib.h */
 
-    if (ssl->err == SSL_ALERT_NONE &&
+    if ((ssl->err == SSL_ALERT_NONE ||
+         ssl->err == SSL_ALERT_CERTIFICATE_EXPIRED) &&
         (ssl->keys == NULL || ssl->keys->CAcerts == NULL))
     {
+        /* (certificate_expired is the verdict for a chain whose ONLY defect
+           is a date: an unauthenticated chain is not that) */
         ssl->err = SSL_ALERT_UNKNOWN_CA;
         psTraceInfo("WARNING: Valid self-signed cert or cert chain but no local authentication\n");
         rc = -1;  /* Force the check on existence of user callback */
